@@ -17,6 +17,10 @@ pub struct Gen<'a> {
     pub problems: Vec<String>,
     /// crate-level alias under which the struct paths are reachable (`zg` = generated, `zr` = reference)
     pub root: &'static str,
+    /// text override for simple-typed / string members: key "<Component>::<wire name>" -> (text, lexical)
+    pub overrides: Option<&'a dyn Fn(&str) -> Option<(String, Lex)>>,
+    /// component whose members are currently generated (for override keys)
+    cur_comp: String,
 }
 
 /// (rust literal, lexical value) alternatives of a builtin
@@ -81,7 +85,7 @@ fn simple_text(name: &str) -> &'static str {
 
 impl<'a> Gen<'a> {
     pub fn new(ex: &'a Extract, model: &'a RefModel, choices: Vec<usize>) -> Gen<'a> {
-        Gen { ex, model, choices, arities: vec![], pos: 0, depth: 0, problems: vec![], root: "zg" }
+        Gen { ex, model, choices, arities: vec![], pos: 0, depth: 0, problems: vec![], root: "zg", overrides: None, cur_comp: String::new() }
     }
 
     fn pick(&mut self, n: usize) -> usize {
@@ -125,6 +129,22 @@ impl<'a> Gen<'a> {
 
     /// alternatives for ONE occurrence of a member: (expr, element-content)
     fn item_alternatives(&mut self, m: &ExpMember) -> Vec<(String, Content)> {
+        if let Some(ov) = self.overrides {
+            if let Some((text, lex)) = ov(&format!("{}::{}", self.cur_comp, m.wire)) {
+                match &m.ty {
+                    ExpTy::Builtin(r, _) if r == "String" => return vec![(format!("{text:?}.to_string()"), Content::Text(lex))],
+                    ExpTy::Named(ns, local) => {
+                        if let (Some(c), Some(st)) = (self.model.comp(ns, local, true).cloned(), find_struct(self.ex, ns, local).first().copied()) {
+                            if c.kind == CompKind::Simple {
+                                let e = self.simple_struct_expr(st, &text, 0);
+                                return vec![(e, Content::Text(lex))];
+                            }
+                        }
+                    }
+                    _ => {}
+                }
+            }
+        }
         match &m.ty {
             ExpTy::Builtin(r, x) => builtin_alternatives(r, x).into_iter().map(|(e, l)| (e, Content::Text(l))).collect(),
             ExpTy::Named(ns, local) => self.named_type_alternatives(ns, local),
@@ -170,6 +190,14 @@ impl<'a> Gen<'a> {
         }
     }
 
+    /// like `struct_value`, but as a nested value: no decision points, optionals present
+    pub fn struct_value_nested(&mut self, comp: &ExpComp, st: &StructInfo) -> (String, ExpElem) {
+        self.depth += 1;
+        let r = self.struct_value(comp, st);
+        self.depth -= 1;
+        r
+    }
+
     /// complete struct literal + expected element for a complex component
     pub fn struct_value(&mut self, comp: &ExpComp, st: &StructInfo) -> (String, ExpElem) {
         let mut root = ExpElem::new(Some(&comp.ns), &comp.name);
@@ -180,6 +208,7 @@ impl<'a> Gen<'a> {
             return ("Default::default()".into(), root);
         }
         let wire_of = |f: &crate::extract::FieldInfo| f.ya.rename.clone().unwrap_or_else(|| f.bare_ident.clone());
+        let saved_comp = std::mem::replace(&mut self.cur_comp, comp.name.clone());
         let mut field_exprs: Vec<(usize, String)> = vec![];
         // iterate in the reference's member order (= wire order); struct literal order is irrelevant
         let mut used = vec![false; st.fields.len()];
@@ -270,6 +299,7 @@ impl<'a> Gen<'a> {
                 field_exprs.push((i, format!("{}: Default::default()", f.ident)));
             }
         }
+        self.cur_comp = saved_comp;
         field_exprs.sort_by_key(|x| x.0);
         // attributes first on the wire does not matter (attribute order is not significant)
         (format!("{} {{ {} }}", self.rust_path(st), field_exprs.into_iter().map(|x| x.1).collect::<Vec<_>>().join(", ")), root)
